@@ -112,7 +112,7 @@ def who1_unsafe(ctx, prog, cfg):
         n += 1
         key = f.short
         if f.is_closure():
-            key = f.rec.get("enclosing_fn", f.short) + "::{closure}"
+            key = f.rec.get("enclosing_fn", f.short)  # closures are reviewed with their enclosing function
         ent = tables.UNSAFE_FNS.get(key)
         ctx.check(ent is not None, "WHO1", f.short, "contains unsafe", f.loc,
                   "`%s` contains `unsafe` code (%d block(s)%s) but is not in the reviewed table of unsafe-containing "
